@@ -21,35 +21,38 @@ SIGNER_LOOP = {"secp256k1_ecdsa_anti_exfil_signer_commit": {"while (!is_nonce_va
 UNITS = [
     U("C15.ec_commit_tweak", ["C15"], "harness/C15/ec_commit.c", "h_ec_commit_tweak", defs=["UNIT_TWEAK"], replace=HASH, unwind=66,
       functions=["secp256k1_ec_commit_tweak", "secp256k1_ec_commit_pubkey_serialize_const", "secp256k1_fe_normalize", "secp256k1_fe_get_b32"],
-      timeout=600, min_obl=50, replay=False, note="hash stream contracts (proved in C05.sha256_write/finalize) replace the SHA calls; data_size symbolic up to 100000"),
+      timeout=600, min_obl=1135, replay=False, note="hash stream contracts (proved in C05.sha256_write/finalize) replace the SHA calls; data_size symbolic up to 100000"),
     U("C15.ec_commit_seckey", ["C15"], "harness/C15/ec_commit.c", "h_ec_commit_seckey", defs=["UNIT_SECKEY"], replace=HASH, unwind=66,
       functions=["secp256k1_ec_commit_seckey", "secp256k1_ec_commit_tweak", "secp256k1_ec_seckey_tweak_add_helper", "secp256k1_eckey_privkey_tweak_add", "secp256k1_scalar_set_b32", "secp256k1_scalar_add"],
-      timeout=600, min_obl=50, replay=False),
+      timeout=600, min_obl=1393, replay=False),
     U("C15.ec_commit", ["C15"], "harness/C15/ec_commit.c", "h_ec_commit", defs=["UNIT_POINT"], replace=HASH + ["secp256k1_ecmult", "secp256k1_ge_set_gej"],
       assumed=["secp256k1_ecmult", "secp256k1_ge_set_gej"], unwind=66,
       functions=["secp256k1_ec_commit", "secp256k1_ec_commit_tweak", "secp256k1_ec_pubkey_tweak_add_helper", "secp256k1_eckey_pubkey_tweak_add", "secp256k1_gej_set_ge"],
-      timeout=600, min_obl=50, replay=False),
+      timeout=600, min_obl=1824, replay=False),
     U("C15.verify_commit", ["C15"], "harness/C15/verify_commit.c", "h_verify_commit", replace=["secp256k1_ec_commit"],
       functions=["secp256k1_ecdsa_s2c_verify_commit", "secp256k1_ecdsa_s2c_opening_load", "secp256k1_pubkey_load", "secp256k1_s2c_ecdsa_point_sha256_tagged",
                  "secp256k1_ecdsa_signature_load", "secp256k1_fe_normalize", "secp256k1_fe_get_b32", "secp256k1_scalar_set_b32", "secp256k1_scalar_eq"],
-      timeout=600, min_obl=50, replay=False, note="secp256k1_ec_commit replaced by its logging contract (hash wiring / tweak gate proved by C15.ec_commit*)"),
-    U("C15.host_verify", ["C15"], "harness/C15/host_verify.c", "h_host_verify", replace=["secp256k1_ecdsa_s2c_verify_commit", "secp256k1_ecdsa_verify"],
-      functions=["secp256k1_anti_exfil_host_verify"], timeout=300, min_obl=10, replay=False,
+      timeout=600, min_obl=1327, replay=False, note="secp256k1_ec_commit replaced by its logging contract (hash wiring / tweak gate proved by C15.ec_commit*)"),
+    U("C15.host_verify_sem", ["C15"], "harness/C15/host_verify_sem.c", "h_host_verify_sem", replace=["secp256k1_ecdsa_s2c_verify_commit", "secp256k1_ecdsa_sig_verify"],
+      functions=["secp256k1_anti_exfil_host_verify", "secp256k1_ecdsa_verify"], timeout=300, min_obl=300, replay=False,
+      note="semantic form of host_verify = verify_commit AND ecdsa_verify: independent of whether ecdsa_verify is called or inlined"),
+    U("C15.host_verify_structural", ["X-structural"], "harness/C15/host_verify.c", "h_host_verify", replace=["secp256k1_ecdsa_s2c_verify_commit", "secp256k1_ecdsa_verify"],
+      functions=["secp256k1_anti_exfil_host_verify"], timeout=300, min_obl=130, replay=False,
       note="lemma over the verdict-oracle contracts of the two callees (gates: C15.verify_commit, C01.verify_api)"),
     U("C15.host_commit", ["C15"], "harness/C15/host_commit.c", "h_host_commit", replace=HASH, unwind=66,
-      functions=["secp256k1_ecdsa_anti_exfil_host_commit", "secp256k1_s2c_ecdsa_data_sha256_tagged"], timeout=300, min_obl=20, replay=False),
+      functions=["secp256k1_ecdsa_anti_exfil_host_commit", "secp256k1_s2c_ecdsa_data_sha256_tagged"], timeout=300, min_obl=524, replay=False),
     U("C15.s2c_sign", ["C15"], "harness/C15/s2c_sign.c", "h_s2c_sign", replace=HASH + S2C_REPL, assumed=GEN, unwind=66,
       loop_contracts=SIGN_LOOP_S2C, closed_by="loop contract on the nonce retry loop (engine-supplied --loop-contracts-file, no /repo edit); partial correctness, termination not claimed",
       functions=["secp256k1_ecdsa_s2c_sign", "secp256k1_anti_exfil_sign", "secp256k1_ecdsa_sign_inner", "secp256k1_s2c_ecdsa_data_sha256_tagged", "secp256k1_s2c_ecdsa_point_sha256_tagged",
                  "secp256k1_ecdsa_s2c_opening_save", "secp256k1_scalar_set_b32_seckey", "secp256k1_ecdsa_signature_save"],
-      timeout=1800, min_obl=100, replay=False,
+      timeout=1800, min_obl=1829, replay=False,
       note="full argument space (every pointer NULL or object, built or unbuilt context, anti_exfil_sign entry); measured 110-150 s of cbmc on a loaded machine - kept in the quick tier because it is the central C15 wiring unit"),
     U("C15.signer_commit", ["C15"], "harness/C15/signer_commit.c", "h_signer_commit", replace=["nonce_function_rfc6979_impl"] + GEN, assumed=GEN,
       extra_instrument=[["--remove-function-pointers"]],   # cbmc 6.11: a call through the const function pointer secp256k1_nonce_function_default inside the loop hides the loop from --loop-contracts-file
       loop_contracts=SIGNER_LOOP, closed_by="loop contract on the nonce loop (engine-supplied, no /repo edit): attempt counter == number of RFC 6979 calls, and an accepted k is a non-zero reduced scalar equal to the last RFC 6979 output; partial correctness",
       functions=["secp256k1_ecdsa_anti_exfil_signer_commit", "nonce_function_rfc6979", "secp256k1_scalar_set_b32_seckey", "secp256k1_ecdsa_s2c_opening_save"],
-      timeout=900, min_obl=100, replay=False),
+      timeout=900, min_obl=871, replay=False),
     U("C15.opening_codec", ["C15"], "harness/C15/opening_codec.c", "h_opening_codec", replace=["secp256k1_ec_pubkey_parse", "secp256k1_ec_pubkey_serialize"],
-      functions=["secp256k1_ecdsa_s2c_opening_parse", "secp256k1_ecdsa_s2c_opening_serialize"], timeout=300, min_obl=10, replay=False,
+      functions=["secp256k1_ecdsa_s2c_opening_parse", "secp256k1_ecdsa_s2c_opening_serialize"], timeout=300, min_obl=191, replay=False,
       note="pass-through lemma: the opening codec is the compressed public-key codec, whose specification is proved by the C03 pubkey units"),
 ]
